@@ -506,6 +506,7 @@ func writeEvidence(root, prop, tier string, seed int, results []*HarnessResult, 
 			"distinct_nontrivial":           distinct,
 			"rule":                          "one evaluation = one complete symbolic path of a harness through the real SSA (each path stands for all values of the symbolic variables satisfying its path condition); non-trivial = the path contains at least one branch or case split decided by the SMT solver; distinct = by decision sequence",
 			"samples":                       samples,
+			"traces_validated_against_impl": validated,
 			"explanation":                   "bounded symbolic execution of the repository's Go code (go/ssa) with z3 deciding every symbolic branch and every property assertion; path set closed under the solver's feasibility answers",
 			"exhaustive":                    len(incon) == 0,
 			"obligations":                   oblig,
